@@ -30,7 +30,7 @@ ID = 'C04'
 LEVEL = 'model_checking'
 CODEC = 'ber'
 CHUNK = 1
-GROUPS_PER_UNIT = 60
+GROUPS_PER_UNIT = 40
 
 ASSUMPTIONS = [
     'Constraint erasure: ber.py never reads value/SIZE/FROM constraints or REAL WITH COMPONENTS when decoding, so '
@@ -48,7 +48,7 @@ ASSUMPTIONS = [
     'nesting 1 only; zero-length segments are generated only at the two ends of the one-segment form.',
     'Constructed nodes with more than 6 children (long SEQUENCE OF values): only the first three and last two '
     'children are rewrite sites.',
-    'When a state has more than VMAX variants (or more than BMAX variant bytes) at R rewrites, R is lowered for that state (never below 1); the '
+    'When a state has more than VMAX variants (or more than BMAX variant bytes, or variants x TLV nodes > NMAX) at R rewrites, R is lowered for that state (never below 1); the '
     'number of states explored at each R is in stats (states_R1, states_R2, ...).',
     'Unasserted: DATE, TIME-OF-DAY and DATE-TIME are never segmented (X.690 8.26 prescribes the primitive form for '
     'the TIME types as far as I can reconstruct it); UTCTime and GeneralizedTime are ([UNIVERSAL 23/24] IMPLICIT '
@@ -65,8 +65,8 @@ ASSUMPTIONS = [
 
 TIERS = {
     # levels: (R, largest number of variants for which a state is explored with R rewrites), tried in order
-    'quick': dict(R=2, levels=((2, 300),), bmax=2 << 20, seg_depth=2, full=0, multi_pads=(2,)),
-    'thorough': dict(R=3, levels=((3, 128), (2, 300)), bmax=4 << 20, seg_depth=3, full=128, multi_pads=(2,)),
+    'quick': dict(R=2, levels=((2, 300),), nmax=6000, bmax=2 << 20, seg_depth=2, full=0, multi_pads=(2,)),
+    'thorough': dict(R=3, levels=((3, 128), (2, 300)), nmax=6000, bmax=4 << 20, seg_depth=3, full=128, multi_pads=(2,)),
 }
 _tier = ['quick']
 
@@ -76,7 +76,7 @@ def bounds(tier):
     return {'tier': tier, 'R': c['R'],
             'R_by_state_size': ['R=%d when the state has <= %d variants with R rewrites' % lv for lv in c['levels']]
             + ['R=1 otherwise'],
-            'max_variant_bytes_per_state': c['bmax'], 'string_nesting': c['seg_depth'],
+            'max_variant_bytes_per_state': c['bmax'], 'max_variants_times_nodes_per_state': c['nmax'], 'string_nesting': c['seg_depth'],
             'full_product_up_to': c['full'], 'pads': [1, 2, 3, 4],
             'pads_in_variants_with_2_or_more_rewrites': list(c['multi_pads'] or (1, 2, 3, 4)), 'string_exhaustive_octets': 4,
             'set_permutation_members': 4, 'codec': CODEC,
@@ -264,11 +264,12 @@ def explore_state(spec, name, term, env, mode, v, enc, tier, stats=None, seen=No
         if sum(big) <= c['full'] and big[12] == 0:
             r = 12
             counts = big
+    nnodes = tlv4.count_nodes(tree)
     if counts is None:
         r = 1
         for lr, lmax in c['levels']:
             cn = tlv4.count_all_variants(tree, lr, cfg)
-            if sum(cn) <= lmax and sum(cn) * len(enc) <= c['bmax']:
+            if sum(cn) <= lmax and sum(cn) * len(enc) <= c['bmax'] and sum(cn) * nnodes <= c['nmax']:
                 r, counts = lr, cn
                 break
         if counts is None:
@@ -295,9 +296,11 @@ def explore_state(spec, name, term, env, mode, v, enc, tier, stats=None, seen=No
             bad.append((cost, b, ops, j))
     # decode() proper on the <= 1-rewrite variants
     presults = _run_batch(_decode_plain_batch, spec, name, [b for _, b, _ in vs])
+    already = {ops for _, _, ops, _ in bad}
     for (cost, b, ops), res in zip(vs, presults):
         j = _judge(term, env, nv, base_dec, res, b, False)
-        if j is not None:
+        if j is not None and ops not in already:
+            # decode() disagrees although decode_with_length() was right on the same bytes
             bad.append((cost, b, ops, ('decode:' + j[0], j[1])))
     ncalls = 2 * len(vs)
     # phase 2: every combination of 2..r rewrites none of which fails on its own
@@ -436,7 +439,7 @@ def work(cu):
                                             'variants_by_rewrites': info['by_cost']})
                 for kind, detail, b, ops in fails:
                     d = fail_detail(ops, detail, kind)
-                    sig = '|'.join([kind, lab.split(':')[0] + ':' + (lab.split(':')[1] if lab.startswith('L0c') else ''), d])
+                    sig = '|'.join([kind, lab.split(':')[0], _opsig(d), detail.split(':')[0] if 'raised' in kind else ''])
                     res.outcome(kind)
                     if sig in reported:
                         res.count('failures_same_sig_same_type')
@@ -499,6 +502,20 @@ def _same(failure, r):
 
 def shrink(failure):
     failure = dict(failure, tier=_tier[0])
+    # A failure is one *minimal* rewrite set; its root cause is identified by the rewrite classes
+    # (operation + verified node label), not by the surrounding term.  When the unshrunk case is
+    # already recognised as a listed known finding, the (expensive: one parse per candidate) term
+    # shrinking is skipped; everything else is shrunk to a 1-minimal (term, value).
+    try:
+        unit, name, term, v = rebuild_case(failure)
+        probe = dict(failure, _term=term, _value=v, _env=unit.env)
+        from .. import runner
+        if runner.match_known(ID, probe, runner.load_known()) is not None:
+            probe['spec'] = unit.spec
+            probe['shrunk_tests'] = 0
+            return probe
+    except Exception:
+        pass
     return shrinker.shrink_failure(failure, run_case, _same)
 
 
